@@ -230,6 +230,19 @@ func char(s string, position int) string {
 	return c
 }
 
+// endsOperand reports whether the last token can end an operand, so that a following minus sign is
+// the binary operator (a-1, f(x)-1, s[i]-1) and not the sign of a number literal.
+func endsOperand(tokens []Token) bool {
+	if len(tokens) == 0 {
+		return false
+	}
+	switch tokens[len(tokens)-1].tokenType {
+	case IDENTIFIER, NUMBER_LITERAL, STRING_LITERAL, BOOL_LITERAL, NIL_LITERAL, CLOSING_ROUND_BRACKET, CLOSING_SQUARE_BRACKET:
+		return true
+	}
+	return false
+}
+
 func Tokenize(source string) ([]Token, error) {
 	var err error = nil
 	tokens := []Token{}
@@ -302,8 +315,8 @@ func Tokenize(source string) ([]Token, error) {
 			// Create bool token.
 			token = newToken(match, BOOL_LITERAL, ogRow, ogColumn)
 			i += len(match)
-		} else if match := regexp.MustCompile(`^-?\d+(\.\d+)?`).FindString(source[i:]); match != "" {
-			// Create number token.
+		} else if match := regexp.MustCompile(`^-?\d+(\.\d+)?`).FindString(source[i:]); match != "" && !(match[0] == '-' && endsOperand(tokens)) {
+			// Create number token (a minus sign directly after an operand is the subtraction operator, not a sign).
 			token = newToken(match, NUMBER_LITERAL, ogRow, ogColumn)
 			i += len(match)
 		} else if regexp.MustCompile(`[a-zA-Z_]`).MatchString(c0) {
